@@ -262,8 +262,11 @@ m("c09-pastcount-boundary", "C09", "x/vesting/types/schedule.go",
   "\t\tif readTime <= elapsedTime+period.Length {\n\t\t\t// we're reading before the next event\n\t\t\tbreak\n\t\t}\n\t\tpassedPeriods++",
   "ReadPastPeriodCount#period-end-vs-readTime", "a period ending exactly at the clawback time is counted vested by ReadSchedule but cut from the period list")
 m("c09-readschedule-start-inclusive", "C09", "x/vesting/types/schedule.go",
-  "\tif readTime <= startTime {\n\t\treturn sdk.NewCoins()", "\tif readTime < startTime {\n\t\treturn sdk.NewCoins()",
-  "ReadSchedule#limits", "a zero-length first period is released at the start instant")
+  "\tif readTime < startTime {\n\t\treturn sdk.NewCoins()", "\tif readTime <= startTime {\n\t\treturn sdk.NewCoins()",
+  "ReadSchedule#limits", "a zero-length first period is missed in the start second (the former behaviour; this mutant used to be stated the other way round)")
+m("c09-pastperiods-start-inclusive", "C09", "x/vesting/types/schedule.go",
+  "\tif readTime < startTime {\n\t\treturn 0", "\tif readTime <= startTime {\n\t\treturn 0",
+  "ReadPastPeriodCount#limits", "the period count misses a zero-length first period in the start second")
 
 # ---------------- C10 ----------------
 m("c10-escrow-underdelivery-accepted", "C10", "x/erc20/keeper/msg_server.go",
